@@ -1,0 +1,1 @@
+//! Hooks for property C21 (empty unless needed).
